@@ -63,9 +63,15 @@ class Action(BaseForm):
                 # if `left` is a `ufl.Zero` as those objects don't have arguments.
                 # We can also not reliably determine the `ZeroBaseForm` arguments.
                 return ZeroBaseForm(())
-            # Still need to work out the ZeroBaseForm arguments.
-            new_arguments, _ = _get_action_form_arguments(left, right)
-            return ZeroBaseForm(new_arguments)
+            if isinstance(left, Argument):
+                # An Argument is the identity (see below) and has no `arguments()`.
+                return right
+            if not isinstance(left, Sum) and not isinstance(right, Sum):
+                # Still need to work out the ZeroBaseForm arguments.
+                # (A Sum of expressions has no `arguments()`: it is distributed below
+                # and every term comes back here.)
+                new_arguments, _ = _get_action_form_arguments(left, right)
+                return ZeroBaseForm(new_arguments)
 
         # Coarguments (resp. Argument) from V* to V* (resp. from V to V) are identity matrices,
         # i.e. we have: V* x V -> R (resp. V x V* -> R).
